@@ -798,3 +798,27 @@ def pop_shape(ctx, rep):
                 else:
                     ok, detail = False, 'new node built from %s instead of all children of the reduced entry' % norm(val)
     rep.ob('PAR-0', BASE, f.qual, 'reduce: single child passed through, else one node from all children', ok, detail)
+
+
+def par_10(ctx, rep):
+    rep.rule('PAR-10', 'error nodes are attached only to a file_input or suite stack entry: the search for the recovery '
+                       'point stops (break) only at such an entry, and the error node goes to the entry just below the '
+                       'discarded slice')
+    f = ctx.prog.func(PY, 'Parser.error_recovery')
+    cs = f.nested.get('current_suite')
+    if cs is None:
+        # the search may have been inlined / renamed: look for the loop over enumerate(stack) in error_recovery itself
+        cs = f
+    cfg = ctx.cfg(cs)
+    breaks = [n for n in cfg.nodes if n.kind == 'stmt' and isinstance(n.ast, ast.Break)]
+    if not breaks:
+        raise AnalysisError('PAR-10: recovery-point search (loop with break) not found')
+    for b in breaks:
+        ok = guarded_by_eq(cfg, b, 'nonterminal', 'file_input') or guarded_by_eq(cfg, b, 'nonterminal', 'suite')
+        rep.ob('PAR-10', PY, cs.qual, 'break of the recovery-point search', ok,
+               'the recovery point can be a stack entry that is neither file_input nor suite: an error node would end up '
+               'inside an expression or statement node')
+    loops = [n for n in walk_own(cs.node) if isinstance(n, ast.For)]
+    ok = any('reversed(' in norm(lp.iter) and 'enumerate(' in norm(lp.iter) for lp in loops)
+    rep.ob('PAR-10', PY, cs.qual, 'search runs from the top of the stack downwards', ok,
+           'the recovery point is not the innermost open block')
